@@ -1541,7 +1541,10 @@ DIRECTED = {
             # the recorded identity-dependence of pickled keys, reached through a decorator that was itself pickled
             ({'spec': _spec(req=['a'], dfl=[['d', 'x']]), 'kind': 'func', 'keymap': _km('picklemap', type='dill', flat=False),
               'deco': 'lru', 'safe': False, 'ignore': ['a'], 'recreate': 'pickle'},
-             'ignored', ([[1]], {'d': 'a'}), ([], {'a': [2], 'd': 'a'}))],
+             'ignored', ([[1]], {'d': 'a'}), ([], {'a': [2], 'd': 'a'})),
+            # an ignored *extra* keyword (one that lands in **kw), present in one call and absent from the other
+            ({'spec': _spec(req=['a'], kw=True), 'kind': 'func', 'keymap': _km('keymap'), 'deco': 'inf', 'safe': False,
+              'ignore': ['p']}, 'ignored', ([1], {}), ([1], {'p': 5}))],
     'C12': [({'spec': _spec(req=['a']), 'kind': 'func', 'keymap': _km('stringmap'), 'deco': 'inf',
               'safe': False, 'tol': 1, 'deep': True}, 'round', ([{'__d__': [[1, 1.26]]}], {}), ([{'__d__': [[1, 1.24]]}], {})),
             ({'spec': _spec(req=['a']), 'kind': 'func', 'keymap': _km('stringmap'), 'deco': 'inf',
@@ -1565,6 +1568,16 @@ def big_pairs():
             out.append((case, 'distinct', ([big + 'a'], {}), ([big + 'b'], {})))
             out.append((case, 'distinct', ([(1, big, 2)], {'d': 3}), ([(1, big, 2)], {'d': 4})))
     return out
+
+
+def extra_presence_mech(case, c1, c2):
+    """witness-derived: the two calls differ in that one passes an ignored keyword which is not a named parameter (it lands
+    in **kw) and the other does not pass it at all: klepto masks the value of such a keyword but keeps its name in the key"""
+    named = set(spec_names(case['spec'])) | set(x[0] for x in case['spec']['kwonly'])
+    diff = set(c1[1]) ^ set(c2[1])
+    if diff and diff <= set(case.get('ignore') or []) and not (diff & named) and list(c1[0]) == list(c2[0]):
+        return ['ignored-extra-keyword-presence']
+    return []
 
 
 def run_directed(prop):
@@ -1596,7 +1609,7 @@ def run_directed(prop):
             if ks1 is not None and ks2 is not None and not _same(ks1[0], ks2[0]):
                 J.bad('C11', 'ignored-argument-changed-key', 'f.key: ignore=%r; calls %s and %s differ only in ignored a but '
                       'keys differ: %s vs %s' % (case['ignore'], srepr(c1), srepr(c2), srepr(ks1[0])[:120], srepr(ks2[0])[:120]),
-                      mech=memo_only_mech(case, ks1[0], ks2[0]))
+                      mech=memo_only_mech(case, ks1[0], ks2[0]) + extra_presence_mech(case, c1, c2))
         elif rel == 'bare':
             # the recorded str(1) == str('1') collision of flat stringmap(encoding=None), seen from this property
             ks1, _ = _keys(J, tgt, f, kg, *c1)
